@@ -1,4 +1,4 @@
-//@unit props=C14,C12,C13 tier=quick rlimit=30
+//@unit props=C14,C13 tier=quick rlimit=30
 //@file src/repr/edge_list/mod.rs
 #![feature(allocator_api)]
 use vstd::prelude::*;
@@ -12,12 +12,11 @@ global size_of usize == 8;
 //@include prelude/iter_wrappers.rs
 //@include prelude/list_core_std.rs
 //@include prelude/list_ops_std.rs
-//@include prelude/edge_list_more_std.rs
-//@include prelude/edge_list_gen2_std.rs
+//@include prelude/edge_list_gen3_std.rs
 
 //@import units/inc/edge_list_core.inc.rs
 //@import units/inc/edge_list_ops.inc.rs
 
-//@include units/inc/edge_list_gen2.inc.rs
+//@include units/inc/edge_list_gen3.inc.rs
 } // verus!
 fn main() {}
